@@ -56,6 +56,7 @@ def step (_ : Unit) : List String → Unit × List String
     ((), [showIdx (Shards.assignWith (Shards.choiceFn ((int n).toNat - 1) l) (int n) (int t))])
   | "zkprove" :: m :: y :: _ => ((), [if decide (Zk.relBytes (fun _ => nat m) 0 (ofHex y)) then "ok" else "err"])
   | "zkverify" :: m :: y :: _ => ((), [if decide (Zk.relBytes (fun _ => nat m) 0 (ofHex y)) then "ok" else "err"])
+  | "zkdecode" :: _ => ((), [])   -- decoding of proof bytes is outside the model (oracle only)
   | _ => ((), ["bad-op"])
 
 def run := runSuite () step
